@@ -33,8 +33,9 @@ RULE = (
 ASSUMPTIONS = [
     "signet shares hrp 'tb' and WIF/base58 prefixes with testnet: decoded network names are compared modulo that",
     "TxOut.to_address is not required to handle 'bcrt' addresses (it has no regtest branch); correctness is required whenever it returns",
-    "acceptance by decode_bech32 of strings that BIP173 rejects for reasons other than the checksum (non-zero padding, "
-    "version > 16, v0 program length not 20/32) and rejection of upper-case addresses are outside the statement: counted as observed:*, not alarmed",
+    "acceptance by decode_bech32 of witness version > 16 or a v0 program length other than 20/32 (the quantifier is versions 0-16 x lengths 2-40) and "
+    "rejection of upper-case addresses are outside the statement: counted as observed:*, not alarmed; non-canonical padding, a wrong regtest separator and "
+    "Base58Check strings that are no address form ARE alarmed (a second string for a script that has its address breaks the bijection)",
     "encode_base58(b'') (not a Base58Check string) raising is counted as an observation",
     "thorough tier registers only a capped sample of double-substitution strings as distinct cases (all are evaluated)",
 ]
@@ -70,6 +71,8 @@ GATES = {
     ],
     "exhaustive-doubles": {"quick": [], "thorough": ["subst2:exhaustive-address"]},
     "decode-histories": ["history:decode-again-after-caller-edited-result"],
+    "second-strings-for-one-script": ["non-address-base58:other-version", "non-address-base58:payload-19", "non-address-base58:payload-21",
+                                      "lenient-probe:non-zero-padding", "lenient-probe:over-long-padding", "lenient-probe:regtest-separator"],
 }
 
 _state = {"tag": None, "register": True}
@@ -241,6 +244,11 @@ def post_decode_bech32(args, kwargs, pre, out):
                     _invalid_address_mech("bech32-decode-accepts-invalid", s, reason, k),
                     f"returned {out[1]!r} for an invalid address (reference: {reason})", case,
                 )
+            elif reason == "padding" or (reason == "format" and s[:4] == "bcrt" and s[4:5] != "1"):
+                # a second string for a program that already has its address: the address <-> scriptPubKey mapping
+                # stops being a bijection (BIP173: non-zero or over-long padding MUST be rejected; the separator is "1")
+                why = "noncanonical-padding" if reason == "padding" else "wrong-separator"
+                ctx.violation("bech32-decode-accepts-invalid:" + why, f"returned {out[1]!r}; the canonical address of that program is another string", case)
             else:
                 ctx.count("observed:decode-accepts:" + reason)
                 if parsed is not None and list(out[1]) != [NET_OF_HRP[parsed[0]], parsed[1], parsed[2]]:
@@ -402,7 +410,9 @@ def _post_addr_to_script(label, s, got_script, out, fa_bcrt):
         reason = kind
         k = _tag_k(s, tag)
         if out[0] == "ok":
-            if k or reason in ("checksum", "wrong-constant", "bad-base58check"):
+            if k or reason in ("checksum", "wrong-constant", "bad-base58check", "base58-not-an-address", "padding"):
+                # incl. a checksum-valid Base58Check string whose version byte / payload length is no address form of
+                # any network: returning a script for it maps two strings to one scriptPubKey (no bijection)
                 mech = label + "-accepts-invalid:" + (f"subst{k}" if k else reason)
                 ctx.violation(mech, f"returned a script for an invalid address (reference: {reason})", case)
             else:
@@ -637,6 +647,16 @@ def bech32_grid(ctx, rng, idx, n, p):
                     from buidl import script
 
                     _try(script.address_to_script_pubkey, noncanon)
+            if (8 * ln) % 5 in (1, 2, 3) or ln % 5 == 0:
+                # an extra all-zero group after canonical padding (5..7 padding bits in total)
+                d5 = [ver] + te.to5(prog) + [0]
+                if (5 * (len(d5) - 1)) // 8 == ln:
+                    ctx.count("lenient-probe:over-long-padding")
+                    _try(bech32.decode_bech32, te.bech32_encode(hrp, d5, const))
+            if net == "regtest" and o[0] == "ok" and i % 5 == 0:
+                ctx.count("lenient-probe:regtest-separator")
+                for ch in ("x", "!", "q", " "):
+                    _try(bech32.decode_bech32, o[1][:4] + ch + o[1][5:])
             if ver and ver + 16 <= 31:
                 ctx.count("lenient-probe:version>16")
                 _try(bech32.decode_bech32, te.bech32_encode(hrp, [ver + 16] + te.to5(prog), te.BECH32M_CONST))
@@ -716,6 +736,27 @@ def template_workload(ctx, rng, idx, n, p):
                     ctx.violation("address-not-injective", f"{addr!r} is the address of {seen[addr]!r} and {key!r}", {"op": "template-roundtrip", "kind": kind, "h": h, "network": net, "amount": 0})
         if ctx.out_of_time():
             return
+    # checksum-valid Base58Check strings that are the address of NO standard script on any network: another version
+    # byte (but a first character the address parsers branch on), or a 19/21-byte payload under a real version
+    from buidl import script as _script
+    from buidl.tx import TxOut as _TxOut
+
+    made = 0
+    for rep in range(p["tmpl"] * 4):
+        if rng.random() < 0.6:
+            ver, ln = rng.choice([v for v in range(256) if v not in (0, 5, 111, 196)]), 20
+        else:
+            ver, ln = rng.choice([0, 5, 111, 196]), rng.choice([19, 21])
+        s = te.b58check_encode(bytes([ver]) + _rand_bytes(rng, ln))
+        if s[0] not in "1mn23":
+            continue
+        made += 1
+        ctx.count("non-address-base58:" + ("other-version" if ln == 20 else "payload-%d" % ln))
+        _state["tag"] = None
+        _try(_script.address_to_script_pubkey, s)
+        _try(_TxOut.to_address, s, 1000)
+    if made == 0:
+        ctx.count("non-address-base58:none-generated")
 
 
 def _pos_class(sep, ln, pos):
